@@ -11,7 +11,7 @@ row held before (it only erases as far as the previous text reached).
 namespace Fzf.Render
 open Fzf Fzf.Terminal
 
-inductive Info | default | inline | hidden
+inductive Info | default | inline | hidden | inlineRight | right
 deriving Repr, DecidableEq
 
 structure ROpts where
@@ -55,7 +55,9 @@ def noSepLine (o : ROpts) : Bool :=
   match o.info with
   | .inline => true
   | .hidden => !o.separator
+  | .inlineRight => !o.separator
   | .default => false
+  | .right => false
 
 /-- Rows of the input section: none when it is hidden, else the prompt row and, unless the info is
     inline or hidden without separator, the info row. -/
@@ -139,6 +141,15 @@ def promptRow (o : ROpts) (input : Str) (found total nsel : Nat) : Str :=
     let fill := maxWidth - (infoText o found total nsel).length - 1
     let row := put (put base pos pre) pos' out
     if o.separator ∧ fill > 0 then put row (pos' + out.length + 1) (List.replicate fill o.sepChar) else row
+  | .inlineRight =>
+    -- the counter at the right end of the prompt row: blanks from the end of the query, one cell for the
+    -- spinner and one margin cell where there is room, then the counter (trimmed to what is left)
+    let pos := o.prompt.length + input.length + 1
+    let p1 := max pos (o.W - (infoText o found total nsel).length - 3)
+    let p2 := if p1 < o.W then p1 + 1 else p1
+    let p3 := if p2 < o.W - 1 then p2 + 1 else p2
+    let out := trimMessage (infoText o found total nsel) (o.W - p3 - 1)
+    put (put base pos (blanks (p3 - pos))) p3 out
   | _ => base
 
 /-- The line under the prompt (only when `promptLines = 2`). -/
@@ -151,6 +162,12 @@ def infoRow (o : ROpts) (found total nsel : Nat) : Str :=
     let row := put (blanks o.W) 2 out
     if o.separator ∧ fill > 0 then put row (2 + out.length + 1) (List.replicate fill o.sepChar) else row
   | .hidden => if o.separator then rowOf o.W (List.replicate (o.W - 1) o.sepChar) else blanks o.W
+  | .inlineRight => if o.separator then rowOf o.W (List.replicate (o.W - 1) o.sepChar) else blanks o.W
+  | .right =>
+    -- separator, one blank, the counter, one margin cell
+    let out := trimMessage (infoText o found total nsel) (o.W - 1)
+    let fill := o.W - out.length - 2
+    rowOf o.W ((if o.separator then List.replicate fill o.sepChar else blanks fill) ++ [32] ++ out)
   | .inline => blanks o.W
 
 structure View where
